@@ -64,6 +64,14 @@ class Recorder:
 LAYOUTS = {3: [0, 0, 1], 4: [0, 1, 0, 2]}      # node lists in which one address is listed twice (a weighted list): position -> address
 
 
+def node_of(url):
+    """index of the configured node a request URL belongs to; a URL of no configured node is an observation of its own"""
+    try:
+        return int(str(url).split('//node')[1].split('.')[0])
+    except (IndexError, ValueError):
+        return 'no-configured-node:' + str(url)[:40]
+
+
 def observe(n, outcomes, layout=None):
     from pytezos.rpc.node import RpcMultiNode, RpcError
     uris = ['http://node%d.invalid' % (layout[i] if layout else i) for i in range(n)]
@@ -84,7 +92,7 @@ def observe(n, outcomes, layout=None):
                 if type(e).__name__ != 'ConnectionError':
                     raise
                 res = 'err'
-            hit = sorted({int(u.split('//node')[1].split('.')[0]) for u in rec.urls})
+            hit = sorted({node_of(u) for u in rec.urls}, key=str)
             obs.append((hit, res, len(rec.urls)))
     finally:
         rec.uninstall()
@@ -119,6 +127,32 @@ def compare(ctx, n, log, sig='C28:replay', layout=None):
     return True
 
 
+def long_run(ctx):
+    """The rotation invariant is inductive (request i goes to node i mod N for every i): one client is driven far beyond the lengths TLC
+    enumerates - past 2^16 requests - so that a counter of limited width or a drifting index shows."""
+    from pytezos.rpc.node import RpcMultiNode
+    ok = boundary.make_response(200, 'application/json', '{}')
+    for n in (3, 5):
+        node = RpcMultiNode(['http://node%d.invalid' % i for i in range(n)])
+        rec = Recorder()
+        rec.install()
+        total = 66000 if ctx.quick else 140000
+        try:
+            for i in range(total):
+                boundary.SCRIPT[:] = [ok]
+                del boundary.LOG[:]
+                rec.urls = []
+                node.request('GET', 'chains/main/blocks/head')
+                got = [node_of(u) for u in rec.urls]
+                if got != [i % n]:
+                    ctx.mismatch('C28:long-run:wrong-node', 'request %d of an all-success run with N=%d went to %s, the rotation says node %d' % (i + 1, n, got, i % n), {'n': n, 'long_run': i})
+                    break
+        finally:
+            rec.uninstall()
+        ctx.count(('long-run', n), nontrivial=True)
+        ctx.extra['long_run_requests'] = ctx.extra.get('long_run_requests', 0) + total
+
+
 def run(ctx):
     boundary.install()
     ctx.rule = ('Leg A/B: every sequence of up to L logical requests over 7 outcome kinds (success, 404, permanent 5xx, transient-then-success, '
@@ -144,6 +178,7 @@ def run(ctx):
             if ok:
                 ctx.sample({'N': n, 'log': log}, limit=3)
     ctx.exhaustive = True
+    long_run(ctx)
     rng = random.Random(ctx.seed * 31 + 28)
     traces = []
     for t in range(200 if ctx.quick else 5000):
@@ -152,7 +187,7 @@ def run(ctx):
         obs = observe(n, outcomes)
         ev = []
         for o, (hit, res, k) in zip(outcomes, obs):
-            ev.append({'node': hit[0] if len(hit) == 1 else -1, 'outcome': o})
+            ev.append({'node': hit[0] if len(hit) == 1 and isinstance(hit[0], int) else -1, 'outcome': o})      # -1: no single configured node (the trace spec rejects it)
         traces.append({'n': n, 'events': ev})
         ctx.count(('c', t))
     tf = os.path.join(ctx.wd, 'traces.json')
@@ -172,6 +207,12 @@ def run(ctx):
 def replay(ctx, rep):
     boundary.install()
     c = rep['case']
+    if 'long_run' in c:
+        boundary.install()
+        long_run(ctx)
+        for m in ctx.mismatches:
+            print('REPRODUCED', m.signature, m.detail)
+        return 1 if ctx.mismatches else 0
     ok = compare(ctx, c['n'], [tuple(e) for e in c['log']], layout=c.get('layout'))
     for m in ctx.mismatches:
         print('REPRODUCED', m.signature, m.detail)
